@@ -63,7 +63,7 @@ fn get_unchecked_<T>(s: &[T], i: usize) -> (r: &T)
 #[verifier::external_body]
 fn get_unchecked_mut_<T>(s: &mut [T], i: usize) -> (r: &mut T)
     requires i < old(s)@.len()
-    ensures *r == old(s)@[i as int], final(s)@ == old(s)@.update(i as int, *final(r))
+    ensures *r == (*old(s))@[i as int], (*final(s))@ == (*old(s))@.update(i as int, *final(r))
 { unsafe { s.get_unchecked_mut(i) } }
 
 // R-ptr: ptr::write / ptr::read through a reference to a Copy element (no drop glue): plain
@@ -94,7 +94,7 @@ pub trait Slice {
 
 pub trait SliceMut: Slice {
     fn slice_mut(&mut self) -> (r: &mut [Self::Element])
-        ensures r@ == old(self).view(), final(self).view() == final(r)@;
+        ensures r@ == old(self).view(), final(self).view() == (*final(r))@;
 }
 
 // ---------------------------------------------------------------------------------------------
@@ -168,6 +168,16 @@ pub trait SliceMut: Slice {
         requires self.wf(),
         ensures r.0@ + r.1@ =~= self.seq(),
             r.0@.len() == self.n() - self.first,
+//@entry
+        broadcast use lemma_widx;
+//@end
+
+//@fn file=dasp_ring_buffer/src/lib.rs in="impl:<S> Fixed<S>" name=slices_mut ret=r label=Fixed::slices_mut
+//@spec
+        requires old(self).wf(),
+        ensures r.0@ + r.1@ =~= old(self).seq(),
+            r.0@.len() == old(self).n() - old(self).first,
+            final(self).first == old(self).first,
 //@entry
         broadcast use lemma_widx;
 //@end
@@ -268,6 +278,15 @@ pub trait SliceMut: Slice {
         broadcast use lemma_widx;
 //@end
 
+//@fn file=dasp_ring_buffer/src/lib.rs in="impl:<S> Bounded<S>" name=slices_mut ret=r label=Bounded::slices_mut
+//@spec
+        requires old(self).wf(),
+        ensures r.0@ + r.1@ =~= old(self).seq(),
+            final(self).start == old(self).start, final(self).len == old(self).len,
+//@entry
+        broadcast use lemma_widx;
+//@end
+
 //@fn file=dasp_ring_buffer/src/lib.rs in="impl:<S> Bounded<S>" name=get ret=r label=Bounded::get
 //@spec
         requires self.wf(),
@@ -321,6 +340,11 @@ pub trait SliceMut: Slice {
         broadcast use lemma_widx;
 //@end
 
+//@fn file=dasp_ring_buffer/src/lib.rs in="impl:<S> Bounded<S>" name=drain ret=r label=Bounded::drain
+//@spec
+        ensures *r.bounded == *old(self), *final(r.bounded) == *final(self),
+//@end
+
 //@fn file=dasp_ring_buffer/src/lib.rs in="impl:<S> Bounded<S>" name=from_raw_parts ret=r rules=R-assert label=Bounded::from_raw_parts
 //@spec
         ensures r.wf(), r.start == start, r.len == len, r.data == data,
@@ -336,6 +360,131 @@ pub trait SliceMut: Slice {
         ensures r.wf(), r.seq() =~= Seq::<S::Element>::empty(), r.data == data,
 //@end
 //@endimpl
+
+//@impl file=dasp_ring_buffer/src/lib.rs header="impl<S> Index<usize> for Bounded<S>" as="impl<S> Bounded<S>"
+//@fn file=dasp_ring_buffer/src/lib.rs in="impl:<S> Index<usize> for Bounded<S>" name=index ret=r label=Bounded::index rules=R-subst:Self::Output=>S::Element
+//@spec
+        requires self.wf(), index < self.seq().len(),   // out of range: documented panic ("index out of range")
+        ensures *r == self.seq()[index as int],
+//@end
+//@endimpl
+
+//@impl file=dasp_ring_buffer/src/lib.rs header="impl<S> IndexMut<usize> for Bounded<S>" as="impl<S> Bounded<S>"
+//@fn file=dasp_ring_buffer/src/lib.rs in="impl:<S> IndexMut<usize> for Bounded<S>" name=index_mut ret=r label=Bounded::index_mut rules=R-subst:Self::Output=>S::Element
+//@spec
+        requires old(self).wf(), index < old(self).seq().len(),
+        ensures *r == old(self).seq()[index as int],
+            final(self).wf(),
+            final(self).seq() =~= old(self).seq().update(index as int, *final(r)),
+//@end
+//@endimpl
+
+//@impl file=dasp_ring_buffer/src/lib.rs header="impl<'a, S> Iterator for DrainBounded<'a, S>" as="impl<'a, S> DrainBounded<'a, S>"
+//@fn file=dasp_ring_buffer/src/lib.rs in="impl:<'a, S> Iterator for DrainBounded<'a, S>" name=next ret=r label=DrainBounded::next rules=R-subst:Self::Item=>S::Element
+//@spec
+        requires old(self).bounded.wf(),
+        ensures
+            final(self).bounded.wf(),
+            final(self).bounded.cap() == old(self).bounded.cap(),
+            old(self).bounded.seq().len() == 0 ==> r is None && final(self).bounded.seq() =~= old(self).bounded.seq(),
+            old(self).bounded.seq().len() > 0 ==>
+                r == Some(old(self).bounded.seq()[0]) && final(self).bounded.seq() =~= old(self).bounded.seq().drop_first(),
+//@end
+//@fn file=dasp_ring_buffer/src/lib.rs in="impl:<'a, S> Iterator for DrainBounded<'a, S>" name=size_hint ret=r label=DrainBounded::size_hint
+//@spec
+        ensures r.0 == old(self.bounded).seq().len(), r.1 == Some(old(self.bounded).seq().len() as usize),
+//@end
+//@endimpl
+
+//@impl file=dasp_ring_buffer/src/lib.rs header="impl<'a, S> ExactSizeIterator for DrainBounded<'a, S>" as="impl<'a, S> DrainBounded<'a, S>"
+//@fn file=dasp_ring_buffer/src/lib.rs in="impl:<'a, S> ExactSizeIterator for DrainBounded<'a, S>" name=len ret=r label=DrainBounded::len
+//@spec
+        ensures r == old(self.bounded).seq().len(),
+//@end
+//@endimpl
+
+// ---------------------------------------------------------------------------------------------
+// The Slice / SliceMut impls of the repository, verified against the trait contract
+// ---------------------------------------------------------------------------------------------
+
+//@impl file=dasp_ring_buffer/src/lib.rs header="impl<'a, T> Slice for &'a [T]"
+    type Element = T;
+    open spec fn view(&self) -> Seq<T> { (**self)@ }
+//@fn file=dasp_ring_buffer/src/lib.rs in="impl:<'a, T> Slice for &'a [T]" name=slice label=Slice(&[T])::slice
+//@end
+//@endimpl
+
+//@impl file=dasp_ring_buffer/src/lib.rs header="impl<'a, T> Slice for &'a mut [T]"
+    type Element = T;
+    open spec fn view(&self) -> Seq<T> { (**self)@ }
+//@fn file=dasp_ring_buffer/src/lib.rs in="impl:<'a, T> Slice for &'a mut [T]" name=slice label=Slice(&mut[T])::slice
+//@end
+//@endimpl
+
+//@impl file=dasp_ring_buffer/src/lib.rs header="impl<'a, T> SliceMut for &'a mut [T]"
+//@fn file=dasp_ring_buffer/src/lib.rs in="impl:<'a, T> SliceMut for &'a mut [T]" name=slice_mut label=SliceMut(&mut[T])::slice_mut
+//@end
+//@endimpl
+
+// ---------------------------------------------------------------------------------------------
+// Property lemmas over the contracts
+// ---------------------------------------------------------------------------------------------
+
+/// the ideal length-N delay line: state after pushing the items of `xs` (oldest first)
+pub open spec fn pushes<T>(s: Seq<T>, xs: Seq<T>) -> Seq<T>
+    decreases xs.len()
+{
+    if xs.len() == 0 { s } else { pushes(s.drop_first().push(xs[0]), xs.drop_first()) }
+}
+
+/// outputs returned by those pushes
+pub open spec fn push_outputs<T>(s: Seq<T>, xs: Seq<T>) -> Seq<T>
+    decreases xs.len()
+{
+    if xs.len() == 0 { Seq::empty() } else { seq![s[0]] + push_outputs(s.drop_first().push(xs[0]), xs.drop_first()) }
+}
+
+/// Delay line (C06): over the Fixed::push contract (r == seq[0], seq' == seq.drop_first().push(x)),
+/// the k-th push returns the initial content for k < N and the value pushed N pushes earlier otherwise.
+pub proof fn lemma_delay_line<T>(s: Seq<T>, xs: Seq<T>, k: int)
+    requires s.len() >= 1, 0 <= k < xs.len(),
+    ensures
+        push_outputs(s, xs).len() == xs.len(),
+        push_outputs(s, xs)[k] == (if k < s.len() { s[k] } else { xs[k - s.len()] }),
+        pushes(s, xs).len() == s.len(),
+    decreases xs.len()
+{
+    let s1 = s.drop_first().push(xs[0]);
+    let xs1 = xs.drop_first();
+    lemma_outputs_len(s, xs);
+    lemma_pushes_len(s, xs);
+    if k == 0 {
+    } else {
+        lemma_delay_line(s1, xs1, k - 1);
+        assert(push_outputs(s, xs)[k] == push_outputs(s1, xs1)[k - 1]);
+        if k - 1 < s1.len() {
+            if k < s.len() { assert(s1[k - 1] == s[k]); } else { assert(s1[k - 1] == xs[0]); }
+        } else {
+            assert(xs1[k - 1 - s1.len()] == xs[k - s.len()]);
+        }
+    }
+}
+
+pub proof fn lemma_outputs_len<T>(s: Seq<T>, xs: Seq<T>)
+    requires s.len() >= 1
+    ensures push_outputs(s, xs).len() == xs.len()
+    decreases xs.len()
+{
+    if xs.len() > 0 { lemma_outputs_len(s.drop_first().push(xs[0]), xs.drop_first()); }
+}
+
+pub proof fn lemma_pushes_len<T>(s: Seq<T>, xs: Seq<T>)
+    requires s.len() >= 1
+    ensures pushes(s, xs).len() == s.len()
+    decreases xs.len()
+{
+    if xs.len() > 0 { lemma_pushes_len(s.drop_first().push(xs[0]), xs.drop_first()); }
+}
 
 } // verus!
 fn main() {}
